@@ -25,6 +25,8 @@ import (
 	subListenerR "github.com/ChainSafe/sygma-relayer/chains/substrate/listener"
 	"github.com/btcsuite/btcd/btcjson"
 	"github.com/btcsuite/btcd/chaincfg/chainhash"
+	relayerStore "github.com/ChainSafe/sygma-relayer/store"
+	"github.com/centrifuge/go-substrate-rpc-client/v4/registry"
 	"github.com/centrifuge/go-substrate-rpc-client/v4/registry/parser"
 	"github.com/centrifuge/go-substrate-rpc-client/v4/types"
 	"github.com/ethereum/go-ethereum/common"
@@ -153,7 +155,59 @@ func (l c05EvmListener) FetchRetryDepositEvents(ev events.RetryV1Event, a common
 	return nil, l.err()
 }
 
-type c05SubConn struct{ failAt string } // events | head | block | -
+// c05HfEvm: the EVM event listener of the hfetch op: one deposit / one RetryV1 event with one deposit, and a failure
+// at exactly one of the reads
+type c05HfEvm struct {
+	c05EvmListener
+	failAt string
+}
+
+func (l c05HfEvm) failing(at string) error {
+	if l.failAt == at {
+		return errRPC
+	}
+	return nil
+}
+func (l c05HfEvm) FetchDeposits(ctx context.Context, a common.Address, s, e *big.Int) ([]*events.Deposit, error) {
+	return []*events.Deposit{{DestinationDomainID: 2, DepositNonce: 1, ResourceID: [32]byte{0xa}}}, l.failing("events")
+}
+func (l c05HfEvm) FetchRetryV1Events(ctx context.Context, a common.Address, s, e *big.Int) ([]events.RetryV1Event, error) {
+	return []events.RetryV1Event{{TxHash: "0x01"}}, l.failing("events")
+}
+func (l c05HfEvm) FetchRetryV2Events(ctx context.Context, a common.Address, s, e *big.Int) ([]events.RetryV2Event, error) {
+	return []events.RetryV2Event{{SourceDomainID: 1, DestinationDomainID: 2, BlockHeight: big.NewInt(5)}}, l.failing("events")
+}
+func (l c05HfEvm) FetchRetryDepositEvents(ev events.RetryV1Event, a common.Address, c *big.Int) ([]events.Deposit, error) {
+	return []events.Deposit{{DestinationDomainID: 2, DepositNonce: 1, ResourceID: [32]byte{0xa}}}, l.failing("retrydeposits")
+}
+
+// c05HfMatcher: the on-chain resource -> handler lookup (an RPC read), failing on demand
+type c05HfMatcher struct{ fail bool }
+
+func (m c05HfMatcher) GetHandlerAddressForResourceID(rid [32]byte) (common.Address, error) {
+	if m.fail {
+		return common.Address{}, errRPC
+	}
+	return common.Address{0xa}, nil
+}
+
+type c05HfPropStore struct{ fail bool }
+
+func (p c05HfPropStore) StorePropStatus(s, d uint8, n uint64, st relayerStore.PropStatus) error { return nil }
+func (p c05HfPropStore) PropStatus(s, d uint8, n uint64) (relayerStore.PropStatus, error) {
+	if p.fail {
+		return relayerStore.MissingProp, errRPC
+	}
+	return relayerStore.MissingProp, nil
+}
+
+func c05HfDepositHandler(failAt string) *depositHandlers.ETHDepositHandler {
+	dh := depositHandlers.NewETHDepositHandler(c05HfMatcher{failAt == "lookup"})
+	dh.RegisterDepositHandler(common.Address{0xa}.Hex(), c05OkHandler{})
+	return dh
+}
+
+type c05SubConn struct{ failAt string } // events | head | block | blockhash | blockevents | metadata | -
 
 func (c c05SubConn) GetFinalizedHead() (types.Hash, error) {
 	if c.failAt == "head" {
@@ -167,14 +221,37 @@ func (c c05SubConn) GetBlock(types.Hash) (*types.SignedBlock, error) {
 	}
 	return &types.SignedBlock{Block: types.Block{Header: types.Header{Number: 100}}}, nil
 }
-func (c c05SubConn) GetBlockHash(uint64) (types.Hash, error)             { return types.Hash{}, nil }
-func (c c05SubConn) GetBlockEvents(types.Hash) ([]*parser.Event, error) { return nil, nil }
-func (c c05SubConn) UpdateMetatdata() error                              { return nil }
+func (c c05SubConn) GetBlockHash(uint64) (types.Hash, error) {
+	if c.failAt == "blockhash" {
+		return types.Hash{}, errRPC
+	}
+	return types.Hash{}, nil
+}
+func (c c05SubConn) GetBlockEvents(types.Hash) ([]*parser.Event, error) {
+	if c.failAt == "blockevents" {
+		return nil, errRPC
+	}
+	return nil, nil
+}
+func (c c05SubConn) UpdateMetatdata() error {
+	if c.failAt == "metadata" {
+		return errRPC
+	}
+	return nil
+}
+
+// FetchEvents: one retry request for an old (finalized) block and one runtime-upgrade event, so that every handler
+// goes on to all the reads it can make
 func (c c05SubConn) FetchEvents(s, e *big.Int) ([]*parser.Event, error) {
 	if c.failAt == "events" {
 		return nil, errRPC
 	}
-	return nil, nil
+	return []*parser.Event{
+		{Name: "SygmaBridge.Retry", Fields: registry.DecodedFields{
+			&registry.DecodedField{Name: "deposit_on_block_height", Value: types.NewU128(*big.NewInt(7))},
+			&registry.DecodedField{Name: "dest_domain_id", Value: types.NewU8(2)}}},
+		{Name: "ParachainSystem.ValidationFunctionApplied"},
+	}, nil
 }
 
 type c05BtcConn struct{ failAt string } // hash | block | -
@@ -349,11 +426,11 @@ func init() {
 		s, e := big.NewInt(10), big.NewInt(14)
 		switch a[0] {
 		case "evmdeposit":
-			return errOut(eventHandlers.NewDepositEventHandler(c05EvmListener{a[1] != "-"}, nil, common.Address{}, 1, ch).HandleEvents(s, e))
+			return errOut(eventHandlers.NewDepositEventHandler(c05HfEvm{failAt: a[1]}, c05HfDepositHandler(a[1]), common.Address{}, 1, ch).HandleEvents(s, e))
 		case "evmretry1":
-			return errOut(eventHandlers.NewRetryV1EventHandler(zerolog.Context{}, c05EvmListener{a[1] != "-"}, nil, nil, common.Address{}, 1, big.NewInt(2), ch).HandleEvents(s, e))
+			return errOut(eventHandlers.NewRetryV1EventHandler(zerolog.Context{}, c05HfEvm{failAt: a[1]}, c05HfDepositHandler(a[1]), c05HfPropStore{a[1] == "propstatus"}, common.Address{}, 1, big.NewInt(2), ch).HandleEvents(s, e))
 		case "evmretry2":
-			return errOut(eventHandlers.NewRetryV2EventHandler(zerolog.Context{}, c05EvmListener{a[1] != "-"}, common.Address{}, 1, ch).HandleEvents(s, e))
+			return errOut(eventHandlers.NewRetryV2EventHandler(zerolog.Context{}, c05HfEvm{failAt: a[1]}, common.Address{}, 1, ch).HandleEvents(s, e))
 		case "subdeposit":
 			return errOut(subListenerR.NewFungibleTransferEventHandler(zerolog.Context{}, 1, nil, ch, c05SubConn{a[1]}).HandleEvents(s, e))
 		case "subretry":
@@ -450,14 +527,19 @@ func genLife(g *G, kind string, k int64, nh int, head int64, maxRounds int, allo
 func genC05(g *G) {
 	kinds := []string{"btc", "evm", "sub"}
 	// handler-level table
-	for _, h := range []string{"evmdeposit", "evmretry1", "evmretry2"} {
+	// every node / store read each real handler makes while it handles a range, failing one at a time
+	for h, reads := range map[string][]string{
+		"evmdeposit": {"events", "lookup"},
+		"evmretry1":  {"events", "retrydeposits", "lookup", "propstatus"},
+		"evmretry2":  {"events"},
+		"subdeposit": {"events"},
+		"subretry":   {"events", "head", "block", "blockhash", "blockevents"},
+		"subsys":     {"events", "metadata"},
+	} {
 		g.Emit("hfetch", h, "-")
-		g.Emit("hfetch", h, "events")
-	}
-	for _, f := range []string{"-", "events", "head", "block"} {
-		g.Emit("hfetch", "subdeposit", f)
-		g.Emit("hfetch", "subretry", f)
-		g.Emit("hfetch", "subsys", f)
+		for _, f := range reads {
+			g.Emit("hfetch", h, f)
+		}
 	}
 	for _, f := range []string{"-", "hash", "block", "nilblock"} {
 		g.Emit("hfetch", "btcdeposit", f)
